@@ -7,7 +7,7 @@ CONSTANTS N, EMIT, IncludeCtx
 VARIABLES items
 Msgs == {"m1", "m two"}
 Items == { [k |-> "fail", ctx |-> c, m |-> (IF c = "script" THEN "*" ELSE m)] : c \in (IF IncludeCtx THEN Ctxs ELSE Ctxs \ {"incl"}), m \in Msgs }
-   \cup { [k |-> "eoe", on |-> b] : b \in BOOLEAN } \cup { [k |-> "obs"] }
+   \cup EoeItems \cup { [k |-> "obs"] }
 Init == items = <<>>
 Next == Len(items) < N /\ \E it \in Items : items' = Append(items, it)
 Spec == Init /\ [][Next]_items
